@@ -46,6 +46,7 @@ class Ctx:
         self.twins_run = 0
         self.notes = []
         self.unavailable = []         # sub-checks that could not run (protocol / driver errors)
+        self.state_divergences = []   # model state != abstraction of the real object graph, nothing observable differs
         self.variant = {}
         self.exhaustive = False
 
